@@ -56,6 +56,8 @@ func compareChain(sh chainShape, table map[byte]refmodel.Behaviour, st *fw.Stats
 					'C': "dynamic route on a caching router measured on the second identical request", 'X': "the router served a request that aborted and then panicked (no hook) before", 'D': "debug mode on",
 					'S': "group middleware added by separate Use calls and a sibling route with its own middleware registered afterwards",
 					'V': "middleware lists handed over as caller-owned spread slices with spare capacity which the caller then reuses for a second router (first global middleware) and for two sibling routes that add more with Route.Use (variadic route middleware)",
+					'M': "caching router; the measured chain belongs to a PUT route on /x/{id} registered first, a later route /{sec}/{id} for POST and PUT has other middleware; history POST /x/7, then the measured PUT /x/7",
+					'N': "the route is registered for all methods with Any(path, main, list...) from a caller-owned slice whose elements the caller overwrites afterwards",
 					'L': "the caller's writer refuses every body byte (a client that is gone); no handler writes body bytes itself",
 					'Y': "the request goes to /fwd, whose first middleware forwards it with HandleContext to the measured route (/fwd's other handlers must not run)",
 					'K': "caching router; the measured chain belongs to a route registered for HEAD only on /x/{id}, a GET route with other middleware covers the same path; history GET, HEAD, then the measured HEAD request"}[h])
